@@ -36,6 +36,13 @@ theorem discretize_spec (probs : List Rat) (eps : Rat) (hne : probs ≠ []) (hpo
       discretizeOk probs eps numers denom mu = true :=
   OFV.Proofs.C19D.discretize_ok probs eps hne hpos htot heps
 
+/-- `sub_bit_precision = max(0, ceil(-log2(epsilon * n)))` is exactly the least `mu` with
+`epsilon * n * 2^mu ≥ 1` (enough for the epsilon bound, and one bit less is not). -/
+theorem sub_bit_precision_spec (eps : Rat) (n : Nat) (h : 0 < eps * n) :
+    1 ≤ eps * n * (2 ^ subBitPrecision eps n : Nat) ∧
+    (subBitPrecision eps n = 0 ∨ eps * n * (2 ^ (subBitPrecision eps n - 1) : Nat) < 1) :=
+  ⟨OFV.Proofs.C19D.subBitPrecision_spec eps n h, OFV.Proofs.C19D.subBitPrecision_minimal eps n h⟩
+
 /-- `preprocess_lcu_coefficients_for_reversible_sampling`: the call succeeds and the alias table it
 returns has valid alternates, `0 ≤ keep ≤ 2^mu`, and a two-stage sampling probability within `epsilon`
 of `coeff_k / Σ coeff` for every `k` (the alias table reproduces the discretised distribution exactly). -/
